@@ -124,6 +124,63 @@ func containsStr(s, sub string) bool {
 	})()
 }
 
+// calleeMethod matches calls of a method (interface or concrete) by name,
+// declared in a package whose path ends with pkgSuffix, whatever the receiver
+// (covers methods promoted from embedded interfaces).
+func calleeMethod(pkgSuffix, name string) CallMatcher {
+	return func(c *ssa.CallCommon) bool {
+		o := CalleeObj(c)
+		if o == nil || o.Name() != name || o.Pkg() == nil {
+			return false
+		}
+		if !containsStr(o.Pkg().Path(), pkgSuffix) {
+			return false
+		}
+		return o.Type().(*types.Signature).Recv() != nil
+	}
+}
+
+// knownFalseAt: boolean value v is known false in block b (b is dominated by
+// the false successor of an If on v).
+func knownFalseAt(v ssa.Value, b *ssa.BasicBlock) bool {
+	refs := v.Referrers()
+	if refs == nil {
+		return false
+	}
+	check := func(iff *ssa.If) bool {
+		a := AtomOf(iff)
+		if a.Op != 0 || a.X != v {
+			return false
+		}
+		s := 1 - a.TrueSucc()
+		succ := iff.Block().Succs[s]
+		if !succ.Dominates(b) {
+			return false
+		}
+		for _, pr := range succ.Preds {
+			if pr != iff.Block() && !succ.Dominates(pr) {
+				return false
+			}
+		}
+		return true
+	}
+	for _, r := range *refs {
+		switch x := r.(type) {
+		case *ssa.If:
+			if check(x) {
+				return true
+			}
+		case *ssa.UnOp:
+			for _, r2 := range *x.Referrers() {
+				if iff, ok := r2.(*ssa.If); ok && check(iff) {
+					return true
+				}
+			}
+		}
+	}
+	return false
+}
+
 // fset builds a function set.
 func fset(fns ...*ssa.Function) map[*ssa.Function]bool {
 	m := map[*ssa.Function]bool{}
